@@ -27,6 +27,10 @@ def base_knobs(r, allow_faulty_io=True):
             k["tracedir"] = r.choice(["lnk/ovni", "lnk/a/ovni"])
         else:
             k["tmpdir"] = "lnk/t"
+    if k.get("tmpdir") and not k.get("symlinks") and r.chance(6):
+        # OVNI_TMPDIR names the trace directory itself (literally or through an alias): nothing to relocate
+        td = (k.get("tracedir") or "ovni").rstrip("/")
+        k["tmpdir"] = r.choice([td, "./" + td, td + "/", td.replace("/", "//", 1) if "/" in td else td + "/."])
     if r.chance(8):
         k["close_stdin"] = 1        # the process runs with descriptor 0 closed (0 is then a valid stream descriptor)
     k["readdir"] = r.choice([0, 1, 2, 3 + r.below(1000)])
@@ -42,6 +46,24 @@ def tracedir_of(knobs):
 
 def stream_dir(root, knobs, tid, loom=LOOM, pid=PID):
     return os.path.join(root, tracedir_of(knobs), "loom." + loom, "proc.%d" % pid, "thread.%d" % tid)
+
+
+def add_stale(knobs, tids, r, loom=LOOM, pid=PID):
+    """Pre-existing state: thread directories of an earlier incarnation (same loom, PID, TIDs) with longer, finished
+    streams in the final and/or the temporary directory."""
+    specs = []
+    for tid in tids:
+        if not r.chance(70):
+            continue
+        where = []
+        if r.chance(70) or not knobs.get("tmpdir"):
+            where.append(tracedir_of(knobs))
+        if knobs.get("tmpdir") and (r.chance(60) or not where):
+            where.append(knobs["tmpdir"])
+        for base in where:
+            specs.append("%s:%d" % (os.path.join(base.rstrip("/"), "loom." + loom, "proc.%d" % pid, "thread.%d" % tid), r.choice([1, 40, 400, 5000])))
+    if specs:
+        knobs["stale"] = ",".join(specs)
 
 
 def tmp_stream_dir(root, knobs, tid, loom=LOOM, pid=PID):
@@ -65,7 +87,7 @@ class Prog:
     """Builds a plan for `nthreads` tracing threads of one process, keeping a
     per-thread fill-level heuristic to aim at the buffer-full boundary."""
 
-    def __init__(self, r, nthreads, cap, knobs):
+    def __init__(self, r, nthreads, cap, knobs, stale_pct=0):
         self.r = r
         self.cap = cap
         self.plan = rt.Plan(nthreads)
@@ -74,6 +96,8 @@ class Prog:
         self.tids = [101 + i * 3 for i in range(nthreads)]
         self.nthreads = nthreads
         self.boundaries = 0
+        if stale_pct and r.derive("stale").chance(stale_pct) and not knobs.get("symlinks"):
+            add_stale(knobs, self.tids, r.derive("stale-where"))
 
     def start(self, conformant=True, cpus=((0, 0),), require=()):
         p = self.plan
